@@ -1,6 +1,6 @@
 PROP = {
     "level": "exploration",
-    "stages": [("main", "c12", False, ())],
+    "stages": [("main", "c12", False, ()), ("race", "c12", True, ())],
     "assumptions": ["draft"],
 }
 META = {"technique": "draft", "text": "draft", "note": "draft"}
